@@ -410,12 +410,12 @@ Prompt / ACK(Finished) with fresh ids from a known peer. Non-trivial = two trans
     ctx.run_known_replays(&part);
     let seed = ctx.seed;
     for (name, lossy, strays, replay, bounded, nq, nt) in [
-        ("loss-free", false, false, false, false, 1500u64, 15_000u64),
-        ("loss-free+strays", false, true, false, false, 2500, 30_000),
-        ("lossy+strays", true, true, false, false, 2500, 30_000),
-        ("strays+replay", false, true, true, false, 1000, 10_000),
-        ("one-loss-per-link", false, false, false, true, 2500, 30_000),
-        ("one-loss-per-link+strays", false, true, false, true, 1500, 20_000),
+        ("loss-free", false, false, false, false, 1500u64, 60_000u64),
+        ("loss-free+strays", false, true, false, false, 2500, 100_000),
+        ("lossy+strays", true, true, false, false, 2500, 100_000),
+        ("strays+replay", false, true, true, false, 1000, 40_000),
+        ("one-loss-per-link", false, false, false, true, 2500, 100_000),
+        ("one-loss-per-link+strays", false, true, false, true, 1500, 80_000),
     ] {
         ctx.section = name.into();
         let n = ctx.tier.pick(nq, nt);
